@@ -221,6 +221,8 @@ def gen_c16(tier, seed):
                                       "1:10:0:0:0:0", "1:10:1:20:0:0", "1:20:2:1000:0:0"])
                 if r.random() < 0.2:
                     o["prog"] = "missing"
+                elif r.random() < 0.15:
+                    o["fork"] = 1   # run does not do fork mode: rejected, and nothing of the attempt may stay behind
             if kind == 8:
                 # reproc_run: no sinks; every stream defaults to the parent's unless a shorthand is given
                 o = {"ignpipe": 1, "stop": r.choice([KILL_POLICY, "1:-1:0:0:0:0", "1:10:0:0:0:0"]), "ident": 1}
@@ -559,6 +561,13 @@ def judge_c16(case, log):
         ret = op["ret"]
         if is_run:
             obs["runs"] += 1
+            if hs.opts.get("fork"):
+                obs["run_fork_rejections"] = obs.get("run_fork_rejections", 0) + 1
+                if ret != EINVAL:
+                    V(vs, "C16", "run-fork-mode-not-rejected", "run with the fork option returned %d, not the invalid-argument error" % ret)
+                if any(t[0] == "fork" for t in op.get("tr", [])):
+                    V(vs, "C16", "run-fork-mode-forks", "run with the fork option forked a process")
+                continue
             if hs.opts.get("prog") == "missing":
                 if ret != -2:
                     V(vs, "C16", "run-start-error-not-returned", "run of a missing program returned %d" % ret)
